@@ -170,7 +170,9 @@ example : Kmp.findAll [97, 97] [97, 97, 97, 97] 0 = [0, 1, 2] := by decide
     permutation of the input (nothing lost or duplicated).
     Missing part, tested by the correspondence harness + the ordered-permutation oracle, not proved:
       `StrictWeakOrder before → ∃ r, sort le before a = .ok r ∧ Sorted before r`  (termination within the fuel, in-bounds
-      scans, orderedness).  The partition-step lemmas towards it are `partition_scan_left` below. -/
+      scans, orderedness of the whole recursion).  Proved towards it (the documented fall-back): `partition_step` — the
+      Hoare partition of one `sort-help` call terminates within the model's fuel, stays in bounds and establishes its
+      postcondition with both sub-ranges strictly smaller — and `partition_scan_left`. -/
 theorem sort_perm_sorted_partial {α : Type} (le before : α → α → Bool) (a r : Array α)
     (h : Sort.sort le before a = .ok r) : Array.Perm r a ∧ r.size = a.size := by
   have hp := Sort.sort_perm le before a r h
@@ -190,6 +192,20 @@ theorem partition_scan_left {α : Type} (before : α → α → Bool) (a : Array
   obtain ⟨k, hk, hks⟩ := Sort.scanLeft_sentinel before a pivot (a.size + 1) left s x hs hx hnb (by omega)
   obtain ⟨h1, h2, h3⟩ := Sort.scanLeft_ok before a pivot _ left k hk
   exact ⟨k, hk, h1, hks, h2, h3⟩
+
+/-- ☆ partition step of `sort-help` for every strict weak order `before?` (and any `<=` used for the median): started as
+    in the janet code it returns `ok`, i.e. no `in` out of range and no fuel exhaustion; only `[lo,hi]` is permuted;
+    afterwards everything left of `left'` is not after the pivot, everything right of `right'` is not before it,
+    `right' ≤ left'`, `lo < left'` and `right' < hi`. -/
+theorem partition_step {α : Type} (le before : α → α → Bool) (hswo : Sort.SWO before) (a : Array α) (lo hi : Nat)
+    (hlt : lo < hi) (hsz : hi < a.size) :
+    let pivot := Sort.medianOfThree le a[lo] (a[(lo + hi) / 2]'(by omega)) a[hi]
+    ∃ a' l' r', Sort.partitionLoop before pivot (a.size + 2) a lo hi = .ok (a', l', r') ∧
+      Sort.PPost before pivot lo hi a a' l' r' :=
+  Sort.partition_step le before hswo a lo hi hlt hsz
+
+example : Sort.SWO (fun (a b : Int) => decide (a % 4 < b % 4)) :=
+  ⟨fun x => by simp, fun x y h => by simp at h ⊢; omega, fun x y z h1 h2 => by simp at h1 h2 ⊢; omega⟩
 
 example : Sort.sort (fun a b => decide (a ≤ b)) (fun a b => decide (a % 4 < b % 4)) #[3, 1, 2, 5, 4, 1]
     = .ok #[4, 5, 1, 1, 2, 3] := by decide
